@@ -163,6 +163,14 @@ pub mod sup {
             Box::leak(Box::new(kani::any::<u8>()))
         }
     }
+    pub static STATIC_BYTES: [u8; 4] = [1, 2, 3, 4];
+    impl Sym for &'static [u8] {
+        fn sym() -> Self {
+            let i = (kani::any::<u8>() & 3) as usize;
+            let j = (kani::any::<u8>() & 3) as usize;
+            if i <= j { &STATIC_BYTES[i..j] } else { &STATIC_BYTES[..0] }
+        }
+    }
     pub static STATIC_REFS: [&'static u8; 4] = [&STATIC_U8S[3], &STATIC_U8S[2], &STATIC_U8S[1], &STATIC_U8S[0]];
     impl Sym for &'static &'static u8 {
         fn sym() -> Self {
